@@ -83,14 +83,47 @@ def helpers_env(b):
         yield st, interp.concat_strs(parts)
 
     b.bind('urlencode', Model('urlencode', urlencode))
-    # every reading of the clock is a NEW instant (two readings in one request may straddle a second, or midnight)
-    def _clock_fn(interp, st, args, kwargs):
-        r = sym.fresh(NOW, 'now')
-        st.emit('utcnow', value=r)
-        yield st, r
+    # every reading of the clock is a NEW instant (two readings in one request may straddle a second, or midnight).  A datetime value is
+    # an opaque bundle of calendar FIELDS (what formatting prints): `utcnow()` / `now(timezone.utc)` give the UTC fields `u` of the instant,
+    # `now()` gives the LOCAL fields `l` of the same instant - unrelated to `u` for the formatter (the zone is any zone) except through the
+    # conversions as_utc(l) = u, as_local(u) = l.  The `utcnow` event carries the UTC fields: SigV4 dates are UTC.
+    AS_UTC, AS_LOCAL = UF('dt_as_utc', NOW, NOW), UF('dt_as_local', NOW, NOW)
+    UTC_ZONE = Obj('timezone.utc')
 
-    _clock = Model('clock', _clock_fn)
-    b.bind('datetime', Obj('datetime', utcnow=_clock, now=_clock))
+    def _utc_reading(st):
+        u = sym.fresh(NOW, 'now')
+        st.assume(AS_UTC(u.z) == u.z)
+        st.emit('utcnow', value=u)
+        return u
+
+    def _utcnow(interp, st, args, kwargs):
+        yield st, _utc_reading(st)
+
+    def _now(interp, st, args, kwargs):
+        tz = args[0] if args else kwargs.get('tz')
+        u = _utc_reading(st)
+        if tz is UTC_ZONE:
+            yield st, u
+        elif tz is None:
+            l = sym.fresh(NOW, 'localnow')
+            st.assume(z3.And(AS_UTC(l.z) == u.z, AS_LOCAL(u.z) == l.z, AS_LOCAL(l.z) == l.z))
+            yield st, l
+        else:
+            raise sym.Unsupported('datetime.now(<zone other than timezone.utc>)')
+
+    def _astimezone(interp, st, args, kwargs):
+        me_, tz = args[0], (args[1] if len(args) > 1 else kwargs.get('tz'))
+        if tz is UTC_ZONE:
+            yield st, SV(NOW, AS_UTC(me_.z))
+        elif tz is None:
+            yield st, SV(NOW, AS_LOCAL(me_.z))
+        else:
+            raise sym.Unsupported('astimezone(<zone other than timezone.utc>)')
+
+    NOW.attrs['astimezone'] = models.MethodModel('datetime.astimezone', _astimezone)
+    b.bind('datetime', Obj('datetime', utcnow=Model('datetime.utcnow', _utcnow), now=Model('datetime.now', _now)))
+    b.bind('timezone', Obj('timezone', utc=UTC_ZONE))
+    b.bind('UTC', UTC_ZONE)
 
 
 def self_obj(b):
